@@ -9,7 +9,8 @@
   data_flat = structured_to_unstructured(droplet.data)           `flat` = position ++ [radius, width] ++ amplitudes
   free = ones; free[grid.coordinate_constraints] = False         `freeMask`
   l, h = droplet.data_bounds; bounds = l[free], h[free]          `lowerBounds`, `upperBounds` (none = ∓inf)
-  adjust_values: parameters = r_[data_flat[free], vmin, vrng]     `plan` (x0, lb, ub)
+  adjust_values (and vrng != 0, else the intensities are kept fixed):
+      parameters = r_[data_flat[free], vmin, vrng]                `plan` (x0, lb, ub), `adjust` = effective flag
       bounds = r_[l, vmin - vrng, 0], r_[h, vmax, 3 vrng]
   data_flat[free] = result.x[:-2] / result.x                      `scatter`
 -/
